@@ -156,4 +156,47 @@ theorem tie_poolUnallocated : poolUnallocConds =
      "if wkr.state == StateShutdown || wkr.state == StateRunning || wkr.idleBehavior != IdleBehaviorRun || len(wkr.running) > 0",
      "if wkr.state == StateUnknown && creating[it] > 0 && wkr.appeared.After(oldestCreate[it])"] := rfl
 
+/-! container.Queue (Model.C16_Queue) -/
+
+/-- addEnt: a chooser error for a Queued or Locked container ⇒ cancel task, not added (Q.addEnt) -/
+theorem tie_queueAddEnt : queueAddEntConds =
+    ["if err != nil && (ctr.State == arvados.ContainerStateQueued || ctr.State == arvados.ContainerStateLocked)",
+     "if ctr.State == arvados.ContainerStateQueued",
+     "if err != nil",
+     "if err == nil",
+     "if latest.State == arvados.ContainerStateCancelled",
+     "if err != nil",
+     "if err != nil"] ∧
+    queueAddEntAssigns =
+    ["it, err := cq.chooseType(&ctr)",
+     "cq.current[uuid] = QueueEnt{Container: ctr, InstanceType: it}"] := ⟨rfl, rfl⟩
+
+/-- Update: dontupdate is created before poll() and dropped only after the poll result has been
+applied (Q.beginUpdate / Q.applyPoll) -/
+theorem tie_queueUpdate : queueUpdateConds =
+    ["if err != nil", "if dontupdate", "if !ok", "if dontupdate", "if !stillpresent"] ∧
+    queueUpdateAssigns =
+    ["cq.dontupdate = map[string]struct{}{}",
+     "next, err := cq.poll()",
+     "cur.Container = *ctr",
+     "cq.current[uuid] = cur",
+     "cq.dontupdate = nil",
+     "cq.updated = updateStarted"] ∧
+    queueUpdateCalls =
+    ["cq.mtx.Lock", "cq.mtx.Unlock", "cq.poll", "cq.mtx.Lock", "cq.mtx.Unlock", "cq.addEnt", "cq.delEnt",
+     "cq.notify"] := ⟨rfl, rfl, rfl⟩
+
+/-- poll() itself does not touch dontupdate -/
+theorem tie_queuePoll : queuePollAssigns = ["cq.auth = auth"] := rfl
+
+/-- updateWithResp (Q.localResp) -/
+theorem tie_queueResp : queueRespConds = ["if cq.dontupdate != nil", "if !ok"] ∧
+    queueRespAssigns =
+    ["cq.dontupdate[uuid] = struct{}{}",
+     "ent.Container.State, ent.Container.Priority, ent.Container.LockedByUUID = resp.State, resp.Priority, resp.LockedByUUID",
+     "cq.current[uuid] = ent"] := ⟨rfl, rfl⟩
+
+/-- the dispatcher's type chooser is ChooseInstanceType over the cluster configuration -/
+theorem tie_typeChooser : dispTypeChooserReturns = ["ChooseInstanceType(disp.Cluster, ctr)"] := rfl
+
 end ArvVerif.Tie.C16
